@@ -46,13 +46,34 @@ fn put_le(b: &mut [u8], o: usize, v: u64, n: usize) {
 // only that sub-parser is explored; every other byte and the length are symbolic.
 // ---------------------------------------------------------------------------------------------
 
-fn hll_coupon_any_bytes_case(mode_byte: u8, update_after: bool) {
+/// lengths at which the truncated-image instances cut the buffer (concrete: a slice of symbolic length
+/// defeats CBMC's constant propagation over the literal mode bytes and every sub-parser is explored)
+const SHORT_LENS: [usize; 6] = [0, 1, 7, 8, 9, 12];
+
+fn hll_coupon_any_bytes_case(mode_byte: u8, update_after: bool, short: bool) {
+    if short {
+        let mut i = 0;
+        while i < SHORT_LENS.len() {
+            hll_coupon_any_bytes_at(mode_byte, false, SHORT_LENS[i]);
+            i += 1;
+        }
+        hll_coupon_any_bytes_at(mode_byte, false, 39);
+    } else {
+        hll_coupon_any_bytes_at(mode_byte, update_after, 40);
+    }
+}
+
+fn hll_coupon_any_bytes_at(mode_byte: u8, update_after: bool, len: usize) {
     let mut img: [u8; 40] = kani::any();
-    let len: usize = kani::any();
-    kani::assume(len <= 40);
     img[7] = mode_byte;
+    if !update_after {
+        // the table-size field as a literal (the standard 8-slot list / 32-slot set): the table allocation is
+        // then concrete. Every lgArr value (a symbolic-size allocation, bounded by the parser's own check) is
+        // the *_then_update instances' business (thorough tier).
+        img[4] = if mode_byte & 3 == 1 { 5 } else { 3 };
+    }
     let r = HllSketch::deserialize(&img[..len]);
-    kani::cover!(r.is_ok());
+    kani::cover!(r.is_ok() || len != 40 || mode_byte & 3 == 3);
     kani::cover!(r.is_err());
     if let Ok(mut s) = r {
         let _ = s.is_empty();
@@ -72,12 +93,13 @@ fn hll_coupon_any_bytes_case(mode_byte: u8, update_after: bool) {
 }
 
 macro_rules! hll_coupon_any_bytes {
-    ($name:ident, $mode:expr, $upd:expr) => {
+    ($name:ident, $mode:expr, $upd:expr, $short:expr) => {
         #[kani::proof]
         #[kani::unwind(12)]
         #[kani::stub(alloc::fmt::format, stub_format)]
+        #[kani::stub(alloc::vec::Vec::with_capacity, crate::verif_kani_common::stub_with_capacity)]
         fn $name() {
-            hll_coupon_any_bytes_case($mode, $upd);
+            hll_coupon_any_bytes_case($mode, $upd, $short);
         }
     };
 }
@@ -91,23 +113,38 @@ macro_rules! hll_coupon_any_bytes {
 //@ functions: hll::hash_set::HashSet::deserialize
 //@ unwind: 12
 //@ stubs: alloc::fmt::format -> empty string
-//@ bounds: every byte string of length 0..=40 with the mode byte of the instance (LIST or SET x target type Hll4 / Hll8; 3 = invalid mode); all other header bytes, counts and coupons symbolic; the *_then_update instances also feed one symbolic coupon to an accepted sketch
+//@ bounds: every byte string of exactly 40 bytes (or, in the *_truncated instances, of each of the lengths 0, 1, 7, 8, 9, 12, 39) with the mode byte of the instance (LIST or SET x target type Hll4 / Hll8; 3 = invalid mode); lgArr the literal 3 (list) / 5 (set) except in the *_then_update instances, where it is symbolic too; all other header bytes, counts and coupons symbolic; the *_then_update instances also feed one symbolic coupon to an accepted sketch. Lengths are concrete because a slice of symbolic length defeats constant propagation (no verdict in 10 min)
 //@ desc: HllSketch::deserialize returns Ok or Err without panic (no shift overflow, no capacity overflow, no unreachable!, no out-of-bounds) for every list / set image; an Ok value can be queried (and updated) without panicking
-hll_coupon_any_bytes!(c14_hll_list_any_bytes, 0, false); //@ tier: quick
-hll_coupon_any_bytes!(c14_hll_set_any_bytes, 1 | (2 << 2), false); //@ tier: quick
-hll_coupon_any_bytes!(c14_hll_invalid_mode_any_bytes, 3, false); //@ tier: quick
-hll_coupon_any_bytes!(c14_hll_list_any_bytes_then_update, 0 | (1 << 2), true);
-hll_coupon_any_bytes!(c14_hll_set_any_bytes_then_update, 1, true);
+hll_coupon_any_bytes!(c14_hll_list_any_bytes, 0, false, false); //@ tier: quick
+hll_coupon_any_bytes!(c14_hll_set_any_bytes, 1 | (2 << 2), false, false);
+hll_coupon_any_bytes!(c14_hll_invalid_mode_any_bytes, 3, false, false); //@ tier: quick
+hll_coupon_any_bytes!(c14_hll_list_any_bytes_truncated, 0, false, true);
+hll_coupon_any_bytes!(c14_hll_set_any_bytes_truncated, 1, false, true);
+hll_coupon_any_bytes!(c14_hll_list_any_bytes_then_update, 0 | (1 << 2), true, false);
+hll_coupon_any_bytes!(c14_hll_set_any_bytes_then_update, 1, true, false);
 //@ endfamily: x
 
-fn hll_array_any_bytes_case(tgt: u8) {
+fn hll_array_any_bytes_case(tgt: u8, short: bool) {
+    if short {
+        let mut i = 0;
+        while i < SHORT_LENS.len() {
+            hll_array_any_bytes_at(tgt, SHORT_LENS[i]);
+            i += 1;
+        }
+        hll_array_any_bytes_at(tgt, 40);
+        hll_array_any_bytes_at(tgt, 47);
+        hll_array_any_bytes_at(tgt, 52);
+    } else {
+        hll_array_any_bytes_at(tgt, 64);
+    }
+}
+
+fn hll_array_any_bytes_at(tgt: u8, len: usize) {
     let mut img: [u8; 64] = kani::any();
-    let len: usize = kani::any();
-    kani::assume(len <= 64);
     img[7] = 2 | (tgt << 2);
     img[3] = 4;
     let r = HllSketch::deserialize(&img[..len]);
-    kani::cover!(r.is_ok());
+    kani::cover!(r.is_ok() || len != 64 || tgt == 3);
     kani::cover!(r.is_err());
     if let Ok(s) = r {
         let _ = s.is_empty();
@@ -118,12 +155,13 @@ fn hll_array_any_bytes_case(tgt: u8) {
 }
 
 macro_rules! hll_array_any_bytes {
-    ($name:ident, $tgt:expr) => {
+    ($name:ident, $tgt:expr, $short:expr) => {
         #[kani::proof]
         #[kani::unwind(18)]
         #[kani::stub(alloc::fmt::format, stub_format)]
+        #[kani::stub(alloc::vec::Vec::with_capacity, crate::verif_kani_common::stub_with_capacity)]
         fn $name() {
-            hll_array_any_bytes_case($tgt);
+            hll_array_any_bytes_case($tgt, $short);
         }
     };
 }
@@ -139,12 +177,14 @@ macro_rules! hll_array_any_bytes {
 //@ functions: hll::aux_map::AuxMap::insert
 //@ unwind: 18
 //@ stubs: alloc::fmt::format -> empty string
-//@ bounds: every byte string of length 0..=64 in HLL (array) mode with lg_k = 4 (16 registers) and the target type of the instance (Hll4: up to 4 aux entries or a 4-int updatable aux table; Hll6; Hll8; 3 = invalid type); all other header bytes (flags, cur_min, lgArr), the estimator fields, counts and payload symbolic
+//@ bounds: every byte string of exactly 64 bytes (in the *_truncated instances: of each of the lengths 0, 1, 7, 8, 9, 12, 40, 47, 52) in HLL (array) mode with lg_k = 4 (16 registers) and the target type of the instance (Hll4: up to 4 aux entries or a 4-int updatable aux table; Hll6; Hll8; 3 = invalid type); all other header bytes (flags, cur_min, lgArr), the estimator fields, counts and payload symbolic
 //@ desc: HllSketch::deserialize returns Ok or Err without panic for every array-mode image at lg_k = 4
-hll_array_any_bytes!(c14_hll_array4_any_bytes, 0); //@ tier: quick
-hll_array_any_bytes!(c14_hll_array6_any_bytes, 1); //@ tier: quick
-hll_array_any_bytes!(c14_hll_array8_any_bytes, 2); //@ tier: quick
-hll_array_any_bytes!(c14_hll_array_invalid_type_any_bytes, 3);
+hll_array_any_bytes!(c14_hll_array4_any_bytes, 0, false); //@ tier: quick
+hll_array_any_bytes!(c14_hll_array6_any_bytes, 1, false); //@ tier: quick
+hll_array_any_bytes!(c14_hll_array8_any_bytes, 2, false); //@ tier: quick
+hll_array_any_bytes!(c14_hll_array_invalid_type_any_bytes, 3, false);
+hll_array_any_bytes!(c14_hll_array4_any_bytes_truncated, 0, true);
+hll_array_any_bytes!(c14_hll_array8_any_bytes_truncated, 2, true);
 //@ endfamily: x
 
 // ---------------------------------------------------------------------------------------------
@@ -541,3 +581,4 @@ fn c11_hll_deserialize_dispatch() {
     kani::cover!(want == 0 && header_ok);
     core::mem::forget(r);
 }
+
